@@ -26,6 +26,7 @@ CORPUS = [
     (["let x = 9223372036854775807\nx += 1"], ""), (["let x = 2 ** 70"], ""), (["opts { linewise }\necho $line $col"], "\nc"),
     (["opts { linewise }\necho \"x\""], "a\nc\nd\n"), (["-c", "<c-v>$"], "日本語 テキスト here\n混ぜる mixed 文字\n"), (["-c", "gg<c-v>iw"], ""),
     (["-c", "<c-v>jiw"], "foo bar\nbaz qux\n"), (["--cut", ":5,2"], "\nb\nc\nd"), (["-m", ":5,2d<CR>"], "a\nb\nc\nd\n"), (["-m", "rè"], "é\n"),
+    (["-m", "<c-v>jly", "-m", "j0rop"], "ñb\néxx"), (["-m", "<c-v>jly", "-m", "jp"], "ab\ncd"),
     (["-c", "lX"], "\u200b\u200d"), (["-c", "x"], "\u200b\u200d"), (["--cut", ">>"], "\u200d👦 family\n🏳"), (["-m", "V>"], "\u0301\u0301 c"),
     (["-m", ">j"], "ééé\nèèè\nz\n"), (["-m", ":s/foo/bar/<CR>"], "foo"), (["-m", ":s/a//<CR>"], "a"), (["--move", ":s///<CR>"], ""),
     (["--cut", ":g!/x/s/a//g<CR>"], "a"), (["-m", ":%s/^/x/<CR>"], "a\na\n"), (["-m", ":%s/a/ü/g<CR>"], "éa éa\nzéa\n"), (["-m", "$", "-c", "%"], "<tag attr='x'>"),
@@ -36,8 +37,18 @@ CORPUS = [
 ]
 
 
+def gen_block(rng):
+    """block yank / delete, then a put somewhere else: rows of the block may land on or behind the last line"""
+    sel = "<c-v>" + "".join(rng.choice(["j", "j", "jj", "l", "l", "$", "k", "w", "G"]) for _ in range(rng.randint(1, 3)))
+    op = rng.choice(["y", "y", "d", "x"])
+    move = "".join(rng.choice(["j", "G", "gg", "$", "k", "w", "0", "jj", ""]) for _ in range(rng.randint(0, 2)))
+    return sel + op + move + rng.choice(["p", "P", "2p", "p.", "pu", 'p"0P'])
+
+
 def gen_keys(rng):
     r = rng.random()
+    if r < 0.06:
+        return gen_block(rng)
     if r < 0.55:
         return "".join(V.any_cmd(rng) for _ in range(rng.randint(1, 6)))
     if r < 0.7:
@@ -89,17 +100,50 @@ def gen_vic(rng):
     return body
 
 
+ADDS_LINE = re.compile(r"[oOpP]|<CR>|<cr>|<enter>|\r|:pu|:r |:t|:co|:g|:norm|yy|\\.|@")
+
+
 def work_of(cmds, lines):
-    """rough number of editor commands the parsed command list asks for (repeat counts multiply, globals run per line)"""
-    w = 0
+    """rough number of editor commands the parsed command list asks for: repeat counts multiply, a -g/-v scope runs per
+    line, and a scope whose commands may add lines feeds itself and every scope around it"""
+    return _work(cmds, float(lines))[0]
+
+
+def _work(cmds, lines):
+    w = 0.0
+    cap = 1e9
     for c in cmds:
         if c[0] == "repeat":
-            w += work_of(c[2], lines) * (c[1][1] + 1) if isinstance(c[1], list) else 10 ** 6
+            times = (c[1][1] + 1) if isinstance(c[1], list) and isinstance(c[1][1], int) else 1000
+            for _ in range(min(times, 64)):
+                bw, lines = _work(c[2], lines)
+                w += bw
+                if w > cap or lines > cap:
+                    return cap, cap
+            if times > 64:
+                w *= times / 64
         elif c[0] == "global":
-            w += lines * (work_of(c[3], lines) + work_of(c[4] or [], lines)) + 1
+            visits = lines
+            bw, after = _work(c[3], lines)
+            ew, after_e = _work(c[4] or [], lines)
+            growth = max(after, after_e) / max(lines, 1.0)
+            if growth > 1.0:
+                # every visit sees the lines the earlier visits added (an inner scope scans the whole buffer)
+                try:
+                    lines = min(cap, lines * growth ** min(visits, 400))
+                except OverflowError:
+                    lines = cap
+                w += min(cap, visits * (bw + ew) * max(1.0, lines / max(visits, 1.0)))
+            else:
+                w += visits * (bw + ew) + 1
         else:
+            keys = c[-1][1] if isinstance(c[-1], list) and len(c[-1]) > 1 and isinstance(c[-1][1], str) else ""
+            if ADDS_LINE.search(keys):
+                lines += 1
             w += 1
-    return w
+        if w > cap or lines > cap:
+            return cap, cap
+    return w, lines
 
 
 def site_of(err):
